@@ -346,12 +346,26 @@ func (c *Checker) expandInstanceMacro(typ types.Type, name string, kind ast.Macr
 	return c.expandMacro(macro, kind, posArgs, namedArgs, loc)
 }
 
+// Whether the macro call that is being expanded should not be executed.
+//
+// While method bodies are checked the list of diagnostics is shared
+// with the bodies that are being checked at the same time. Only the failures
+// of this call are taken into account there, otherwise the expansion (and the diagnostics
+// of the expanded code) would depend on the order in which the bodies get checked.
+func (c *Checker) macroCallFailed(failuresBefore int) bool {
+	if c.phase == methodCheckPhase {
+		return c.failureCount != failuresBefore
+	}
+	return c.Errors.IsFailure()
+}
+
 func (c *Checker) expandMacro(macro *types.Method, kind ast.MacroKind, posArgs []ast.ExpressionNode, namedArgs []ast.NamedArgumentNode, loc *position.Location) ast.Node {
 	exprNodeType := c.StdExpressionNode()
 	patternNodeType := c.StdPatternNode()
 	typeNodeType := c.StdTypeNode()
 
 	concurrent.VerifPoint("checker.expandMacro")
+	failuresBefore := c.failureCount
 	checkedArgs := c.checkMacroArguments(macro, posArgs, namedArgs, loc)
 
 	var expectedReturnType types.Type
@@ -365,7 +379,7 @@ func (c *Checker) expandMacro(macro *types.Method, kind ast.MacroKind, posArgs [
 	}
 	c.checkCanAssign(macro.ReturnType, expectedReturnType, loc)
 
-	if c.Errors.IsFailure() {
+	if c.macroCallFailed(failuresBefore) {
 		return nil
 	}
 
